@@ -343,11 +343,20 @@ func TestC15_P_ShardedDirs(t *testing.T) {
 			depth = tr.Depth()
 		}
 		ls := st.LinkSystem()
-		for _, reifier := range []string{"unixfs", "unixfs-preload"} {
+		for _, reifier := range []string{"unixfs", "unixfs-preload", "Load+NodeReifier"} {
 			var cerr error
+			load := func() (datamodel.Node, error) {
+				if reifier == "Load+NodeReifier" {
+					// a link system that reifies whatever it loads: child shards reach the directory already reified
+					ls2 := *ls
+					ls2.NodeReifier = unixfsnode.Reify
+					return ls2.Load(ipld.LinkContext{}, cidLink(root), protoForCid(root))
+				}
+				return loadReified(ls, root, reifier)
+			}
 			must(t, "map contract (sharded)", func() {
 				var rn datamodel.Node
-				rn, cerr = loadReified(ls, root, reifier)
+				rn, cerr = load()
 				if cerr != nil {
 					return
 				}
@@ -362,7 +371,7 @@ func TestC15_P_ShardedDirs(t *testing.T) {
 			hist := ""
 			must(t, "map contract after history (sharded)", func() {
 				var rn datamodel.Node
-				rn, cerr = loadReified(ls, root, reifier)
+				rn, cerr = load()
 				if cerr != nil {
 					return
 				}
